@@ -100,6 +100,11 @@ Judge(e) ==
     [] e.event = "Fault" /\ e.depth = 1 /\ live -> JudgeFault(e)
     [] e.event = "Final"  -> JudgeFinal(e)
     [] e.event = "Vector" -> JudgeVector(e)
+    (* the program is still running after far more steps than any generated program takes under the reference *)
+    (* semantics: recording stopped here.  Every step up to this point was judged, so by itself this says the  *)
+    (* generator produced a long program (conformance); a deviation that made the program run on was judged   *)
+    (* at its step.                                                                                            *)
+    [] e.event = "StepBound" -> <<"Ref.step-bound-exceeded">>
     [] e.event \in {"Begin", "End", "Step", "Fault"} -> <<>>
     [] OTHER -> <<"Proj.unknown-event">>
 
@@ -118,6 +123,8 @@ TraceNext ==
                   /\ st' = [pc |-> e.npc, stack |-> e.stack, mem |-> ObsMem(e), rd |-> ObsRd(e)]
                   /\ live' = (e.npc >= 0)
                   /\ UNCHANGED <<code, data>>
+             [] e.event = "StepBound" ->
+                  /\ live' = FALSE /\ UNCHANGED <<code, data, st>>
              [] e.event \in {"Fault", "End"} /\ e.depth = 1 ->
                   /\ live' = FALSE /\ UNCHANGED <<code, data, st>>
              [] OTHER -> UNCHANGED <<code, data, st, live>>
